@@ -232,7 +232,7 @@ def well_typed(facts: list[tuple[ast.expr, bool]], local_flags: dict[str, str] |
     ok: set[str] = set()
     equiv: list[tuple[str, str]] = []
     for e, pol in facts:
-        if calls is not None and mod is not None and isinstance(e, ast.Call):
+        if calls is not None and mod is not None and (isinstance(e, ast.Call) or (isinstance(e, ast.Attribute) and ill_subject(e, local_flags) is None)):
             ok |= calls.implied_well_typed(mod, e, pol, depth)
         s = ill_subject(e, local_flags)
         if s is not None:
@@ -345,6 +345,39 @@ class Calls:
                     return None
         return None
 
+    def getter(self, mod: Module, read: ast.AST):
+        """(module, qualified name, def) of the property getter that the attribute read `R.name` runs - a call of that function with R
+        as its only argument, written without parentheses: every class R can be an instance of (the typed facts; the enclosing class
+        for `self`) resolves `name` to one and the same function of the package, that function is decorated as a property and no
+        subclass of the package redefines the name.  None for every other read (a plain attribute, an unknown receiver)."""
+        if not (isinstance(read, ast.Attribute) and isinstance(read.ctx, ast.Load)):
+            return None
+        typed = self.repo.typed
+        tf = typed.type_of(mod.name, read.value)
+        classes = [i for i in tf.items] if tf is not None and not tf.any and not tf.optional else []
+        if not classes and isinstance(read.value, ast.Name) and read.value.id == "self":
+            q = mod.qual_of(read)
+            while q:
+                q = q.rpartition(".")[0]
+                if isinstance(mod.defs.get(q), ast.ClassDef):
+                    classes = [mod.name + "." + q]
+                    break
+        if not classes or any(c not in typed.classes for c in classes):
+            return None
+        full = {typed.resolve_method(c, read.attr) for c in classes}
+        if len(full) != 1 or None in full:
+            return None
+        f0 = full.pop()
+        if len(typed.overrides(f0)) > 1:
+            return None
+        t = self._locate(f0)
+        if t is None or not _decorated_as(t[2], "property", "cached_property"):
+            return None
+        a = t[2].args  # type: ignore[attr-defined]
+        if len(a.posonlyargs) + len(a.args) != 1 or a.vararg or a.kwarg or a.kwonlyargs:
+            return None
+        return t
+
     @staticmethod
     def bind(qual: str, fn: ast.AST, call: ast.Call) -> dict[str, ast.AST] | None:
         """parameter name -> argument expression (the receiver for the first parameter of a method called as `R.m(...)`)"""
@@ -423,18 +456,26 @@ class Calls:
         return out
 
     # -- `the call is true/false` as a fact about the ill-typed flags of its arguments
-    def implied_well_typed(self, mod: Module, call: ast.Call, pol: bool, depth: int = 0) -> set[str]:
-        """subjects (normalised argument / receiver expressions) whose ill-typed flag is known not to be true when the call returned a
-        true (pol) / false (not pol) value: what holds at EVERY return statement of the callee that can hand back such a value - the
+    def implied_well_typed(self, mod: Module, call: ast.AST, pol: bool, depth: int = 0) -> set[str]:
+        """subjects (normalised argument / receiver expressions) whose ill-typed flag is known not to be true when the call - `f(..)`,
+        `R.m(..)`, or the read `R.p` of a property, which calls its getter - returned a true (pol) / false (not pol) value: what holds at EVERY return statement of the callee that can hand back such a value - the
         facts on the way to it together with the returned expression itself having that truth value - said about the parameters and
         carried over to the arguments bound to them"""
         if depth > 2:
             return set()
-        t = self.target(mod, call)
-        if t is None:
-            return set()
-        cm, q, cf = t
-        b = self.bind(q, cf, call)
+        if isinstance(call, ast.Attribute):
+            # the read of a property: a call of its getter with the receiver as the argument
+            t = self.getter(mod, call)
+            if t is None:
+                return set()
+            cm, q, cf = t
+            b: dict[str, ast.AST] | None = {(cf.args.posonlyargs + cf.args.args)[0].arg: call.value}  # type: ignore[attr-defined]
+        else:
+            t = self.target(mod, call)
+            if t is None:
+                return set()
+            cm, q, cf = t
+            b = self.bind(q, cf, call)
         if b is None or any(isinstance(n, (ast.Yield, ast.YieldFrom, ast.Await)) for n in own_nodes(cf)):
             return set()
         if not pol and not terminates(cf.body):  # type: ignore[attr-defined]
@@ -693,3 +734,608 @@ def text_conversions(calls: "Calls", mod: Module, fn: ast.AST, node: ast.AST, de
             break
         break
     return convs, passes
+
+
+# --------------------------------------------------------------------------- loops over constant tables, written out
+
+_PURE_CONSUMERS = ("len", "tuple", "list", "set", "frozenset", "sorted", "enumerate", "zip", "reversed", "iter", "dict", "isinstance", "issubclass")
+_FUNC = (ast.FunctionDef, ast.AsyncFunctionDef)
+
+
+def _module_tables(tree: ast.Module) -> dict[str, list[ast.AST]]:
+    """module-level names that denote one constant sequence for the whole life of the module -> its elements: bound exactly once, by
+    a plain / annotated assignment at module level, to a tuple display (or to a list display that nothing can change: no attribute
+    of the name is taken, no item stored, the name is handed to no function but the pure consumers of the standard library), never
+    stored, deleted, augmented or declared global anywhere else in the module"""
+    cand: dict[str, ast.AST] = {}
+    for st in tree.body:
+        if isinstance(st, ast.Assign) and len(st.targets) == 1 and isinstance(st.targets[0], ast.Name):
+            cand[st.targets[0].id] = st.value if st.targets[0].id not in cand else None  # type: ignore[assignment]
+        elif isinstance(st, ast.AnnAssign) and isinstance(st.target, ast.Name) and st.value is not None:
+            cand[st.target.id] = st.value if st.target.id not in cand else None  # type: ignore[assignment]
+    cand = {k: v for k, v in cand.items() if isinstance(v, (ast.Tuple, ast.List)) and not any(isinstance(x, ast.Starred) for x in v.elts)}
+    if not cand:
+        return {}
+    stores: dict[str, int] = {}
+    spoiled: set[str] = set()
+    for n in ast.walk(tree):
+        if isinstance(n, ast.Name) and isinstance(n.ctx, (ast.Store, ast.Del)) and n.id in cand:
+            stores[n.id] = stores.get(n.id, 0) + 1
+        elif isinstance(n, (ast.Global, ast.Nonlocal)):
+            spoiled |= set(n.names) & set(cand)
+        elif isinstance(n, ast.arg) and n.arg in cand:
+            spoiled.add(n.arg)
+        elif isinstance(n, ast.Attribute) and isinstance(n.value, ast.Name) and n.value.id in cand and isinstance(cand[n.value.id], ast.List):
+            spoiled.add(n.value.id)
+        elif isinstance(n, ast.Subscript) and isinstance(n.value, ast.Name) and n.value.id in cand and not isinstance(n.ctx, ast.Load):
+            spoiled.add(n.value.id)
+        elif isinstance(n, ast.Call):
+            pure = isinstance(n.func, ast.Name) and n.func.id in _PURE_CONSUMERS
+            for a in list(n.args) + [k.value for k in n.keywords]:
+                if isinstance(a, ast.Starred):
+                    a = a.value
+                if isinstance(a, ast.Name) and a.id in cand and isinstance(cand[a.id], ast.List) and not pure:
+                    spoiled.add(a.id)
+    return {k: list(v.elts) for k, v in cand.items() if stores.get(k, 0) == 1 and k not in spoiled}  # type: ignore[attr-defined]
+
+
+def _stable_element(e: ast.AST, local_names: set[str]) -> bool:
+    """an element of a table row that can be written where the loop variable is read: names (not local ones), attributes of them,
+    constants, arithmetic on these, tuple displays of these - evaluating it again gives the object the table holds (or an equal
+    immutable one)"""
+    for n in ast.walk(e):
+        if isinstance(n, ast.Name):
+            if not isinstance(n.ctx, ast.Load) or n.id in local_names:
+                return False
+        elif not isinstance(n, (ast.Constant, ast.Tuple, ast.Attribute, ast.UnaryOp, ast.BinOp, ast.operator, ast.unaryop, ast.expr_context)):
+            return False
+    return True
+
+
+def _loop_level(stmts: list) -> Iterator[ast.AST]:
+    """the nodes of a loop body that belong to this loop: not those of nested function / class bodies, and of a nested loop only its
+    `else` part (a break or continue in the body of a nested loop is that loop's)"""
+    stack = list(stmts)
+    while stack:
+        n = stack.pop()
+        yield n
+        if isinstance(n, _FUNC + (ast.ClassDef, ast.Lambda)):
+            continue
+        if isinstance(n, (ast.For, ast.AsyncFor, ast.While)):
+            stack.extend(n.orelse)
+            continue
+        stack.extend(ast.iter_child_nodes(n))
+
+
+class _RowSubst(ast.NodeTransformer):
+    def __init__(self, row: dict[str, ast.AST]):
+        self.row = row
+
+    def visit_Name(self, n: ast.Name):  # noqa: N802
+        if isinstance(n.ctx, ast.Load) and n.id in self.row:
+            return copy.deepcopy(self.row[n.id])
+        return n
+
+    def visit_Subscript(self, n: ast.Subscript):  # noqa: N802
+        self.generic_visit(n)
+        if isinstance(n.ctx, ast.Load) and isinstance(n.value, ast.Tuple) and isinstance(n.slice, ast.Constant) and isinstance(n.slice.value, int) \
+                and not isinstance(n.slice.value, bool) and -len(n.value.elts) <= n.slice.value < len(n.value.elts) \
+                and not any(isinstance(x, ast.Starred) for x in n.value.elts):
+            return n.value.elts[n.slice.value]
+        return n
+
+
+class _Unroller:
+    """`for <names> in <constant table>: BODY` written out row by row, the loop names replaced by the elements of the row - what the
+    loop does, in the form of the statements it stands for:
+    * BODY without break / continue: BODY[row 1]; BODY[row 2]; ...
+    * BODY = PREFIX; `if T: S; break` (the only break, no continue; the first row that passes the test ends the search):
+      PREFIX[1]; if T[1]: S[1] else: (PREFIX[2]; if T[2]: S[2] else: ...) - an if / elif chain when there is no PREFIX.
+    Refused (the loop stays as it is): a loop with `else`, a table row of another shape than the loop target, row elements that are
+    not stable (calls, local names), loop names that are read or written outside the loop, captured by a nested function / lambda /
+    generator expression, or stored inside BODY, a table that is not one constant sequence (see _module_tables), more than 64 rows."""
+
+    def __init__(self, tree: ast.Module, dry: bool = False):
+        self.tables = _module_tables(tree)
+        self.n = 0
+        self.dry = dry
+
+    def rows_of(self, it: ast.AST, local_names: set[str]) -> list[ast.AST] | None:
+        if isinstance(it, ast.Name) and it.id in self.tables and it.id not in local_names:
+            return self.tables[it.id]
+        if isinstance(it, (ast.Tuple, ast.List)) and not any(isinstance(x, ast.Starred) for x in it.elts):
+            return list(it.elts)
+        return None
+
+    def function(self, fn: ast.AST) -> None:
+        local_names = {a.arg for a in ast.walk(fn.args)if isinstance(a, ast.arg)}  # type: ignore[attr-defined]
+        local_names |= {n.id for n in ast.walk(fn) if isinstance(n, ast.Name) and isinstance(n.ctx, (ast.Store, ast.Del))}
+        new = self.block(fn.body, fn, local_names)  # type: ignore[attr-defined]
+        if not self.dry:
+            fn.body = new  # type: ignore[attr-defined]
+
+    def block(self, stmts: list, fn: ast.AST, local_names: set[str]) -> list:
+        out: list = []
+        for st in stmts:
+            if isinstance(st, _FUNC + (ast.ClassDef,)):
+                out.append(st)
+                continue
+            for fld in ("body", "orelse", "finalbody"):
+                lst = getattr(st, fld, None)
+                if isinstance(lst, list) and lst and isinstance(lst[0], ast.stmt):
+                    new = self.block(lst, fn, local_names)
+                    if not self.dry:
+                        setattr(st, fld, new)
+            for h in getattr(st, "handlers", []) or []:
+                new = self.block(h.body, fn, local_names)
+                if not self.dry:
+                    h.body = new
+            for c in getattr(st, "cases", []) or []:
+                new = self.block(c.body, fn, local_names)
+                if not self.dry:
+                    c.body = new
+            r = self.loop(st, fn, local_names) if isinstance(st, ast.For) else None
+            if r is None:
+                out.append(st)
+            else:
+                self.n += 1
+                out.extend(r)
+        return out
+
+    def loop(self, st: ast.For, fn: ast.AST, local_names: set[str]) -> list | None:
+        if st.orelse:
+            return None
+        rows = self.rows_of(st.iter, local_names)
+        if rows is None or not (1 <= len(rows) <= 64):
+            return None
+        if isinstance(st.target, ast.Name):
+            names = [st.target.id]
+            per_row = [[r] for r in rows]
+        elif isinstance(st.target, (ast.Tuple, ast.List)) and st.target.elts and all(isinstance(x, ast.Name) for x in st.target.elts):
+            names = [x.id for x in st.target.elts]  # type: ignore[attr-defined]
+            if len(set(names)) != len(names):
+                return None
+            per_row = []
+            for r in rows:
+                if not isinstance(r, (ast.Tuple, ast.List)) or len(r.elts) != len(names) or any(isinstance(x, ast.Starred) for x in r.elts):
+                    return None
+                per_row.append(list(r.elts))
+        else:
+            return None
+        others = local_names - set(names)
+        if not all(_stable_element(e, others) for r in per_row for e in r):
+            return None
+        if any(isinstance(x, ast.Name) and x.id in names for r in per_row for e in r for x in ast.walk(e)):
+            return None
+        # the loop names live in the loop only
+        inside = sum(1 for n in ast.walk(st) if isinstance(n, ast.Name) and n.id in names)
+        everywhere = sum(1 for n in ast.walk(fn) if isinstance(n, ast.Name) and n.id in names)
+        if inside != everywhere:
+            return None
+        for n in [x for s in st.body for x in ast.walk(s)]:
+            if isinstance(n, ast.Name) and n.id in names and not isinstance(n.ctx, ast.Load):
+                return None
+            if isinstance(n, _FUNC + (ast.Lambda, ast.GeneratorExp, ast.ClassDef)) and any(isinstance(x, ast.Name) and x.id in names for x in ast.walk(n)):
+                return None
+            if isinstance(n, (ast.Global, ast.Nonlocal, ast.NamedExpr)) and any(isinstance(x, ast.Name) and x.id in names for x in ast.walk(n)):
+                return None
+            if isinstance(n, (ast.Yield, ast.YieldFrom, ast.Await)):
+                pass  # (a generator stays a generator: the statements are kept)
+        level = list(_loop_level(st.body))
+        if any(isinstance(n, ast.Continue) for n in level):
+            return None
+        breaks = [n for n in level if isinstance(n, ast.Break)]
+
+        def inst(stmts: list, row: list) -> list:
+            m = dict(zip(names, row))
+            return [ast.fix_missing_locations(_RowSubst(m).visit(copy.deepcopy(s))) for s in stmts]
+
+        if self.dry:
+            ok = not breaks or (len(breaks) == 1 and isinstance(st.body[-1], ast.If) and not st.body[-1].orelse and st.body[-1].body[-1] is breaks[0])
+            return [] if ok else None
+        if not breaks:
+            return [s for r in per_row for s in inst(st.body, r)]
+        last = st.body[-1]
+        if not (len(breaks) == 1 and isinstance(last, ast.If) and not last.orelse and last.body[-1] is breaks[0]):
+            return None
+        prefix = st.body[:-1]
+        result: list = []
+        for r in reversed(per_row):
+            test = inst([ast.Expr(value=last.test)], r)[0].value
+            body = inst(last.body[:-1], r) or [ast.copy_location(ast.Pass(), last.body[-1])]
+            node = ast.copy_location(ast.If(test=test, body=body, orelse=result), last)
+            result = inst(prefix, r) + [node]
+        return result
+
+
+def unrolled_tree(tree: ast.Module) -> ast.Module | None:
+    """a copy of the module in which the loops over constant tables are written out (see _Unroller); None when it has no such loop"""
+    probe = _Unroller(tree, dry=True)
+    for fn in [n for n in ast.walk(tree) if isinstance(n, _FUNC)]:
+        probe.function(fn)
+    if not probe.n:
+        return None
+    new = copy.deepcopy(tree)
+    u = _Unroller(new)
+    for fn in [n for n in ast.walk(new) if isinstance(n, _FUNC)]:
+        u.function(fn)
+    return new if u.n else None
+
+
+def unrolled(repo):
+    """the package with the loops over constant tables written out: a Repo like an equivalent view of vlib/views.py (same source
+    positions, so the typed facts stay valid; modules rewritten when first asked for; a module without such a loop is the module
+    itself).  The rules of C09 speak about the branches of comparison / conversion code; a table of rows run through by a `for` IS a
+    chain of such branches, and this is where it is given that form - nothing is executed."""
+    cache = repo.__dict__.get("_c09_unrolled")
+    if cache is not None:
+        return cache
+    from .core import Repo, _LazyModules
+    base_modules = repo.modules
+    v = Repo.__new__(Repo)
+    v.root, v.pkg, v._texts, v._typed = repo.root, repo.pkg, repo._texts, None
+    v.base = repo  # type: ignore[attr-defined]
+    for k in ("view_kind", "view_stats"):
+        if hasattr(repo, k):
+            setattr(v, k, getattr(repo, k))
+
+    def build(name: str) -> Module:
+        m = base_modules[name]
+        t = unrolled_tree(m.tree)
+        return m if t is None else Module(m.name, m.path, m.rel, m.text, tree=t)
+
+    v.modules = _LazyModules(list(base_modules), build)  # type: ignore[assignment]
+    repo.__dict__["_c09_unrolled"] = v
+    return v
+
+
+# --------------------------------------------------------------------------- what a function writes for a given (zero) argument
+
+import operator as _op
+
+
+class _Unk(Exception):
+    """the evaluation met something it does not model: no answer (never a guess)"""
+
+
+class Obj:
+    """an argument value known by its type name and its attribute values (the zero timedelta, the zero Duration)"""
+
+    def __init__(self, type_name: str, attrs: dict, falsy: bool | None = None, delegate: "Obj | None" = None, bases: tuple = ()):
+        self.type_name, self.attrs, self.falsy, self.delegate, self.bases = type_name, attrs, falsy, delegate, bases
+
+    def attr(self, name: str):
+        if name in self.attrs:
+            return self.attrs[name]
+        if self.delegate is not None:
+            return self.delegate.attr(name)
+        raise _Unk(name)
+
+
+class Fn:
+    """a function of the analysed package as a value (its def)"""
+
+    def __init__(self, node: ast.AST):
+        self.node = node
+
+
+class Partial:
+    """functools.partial(callee, *args, **kwargs) as a value"""
+
+    def __init__(self, callee, args: list, kwargs: dict):
+        self.callee, self.args, self.kwargs = callee, args, kwargs
+
+
+_OPERATOR_FUNCTIONS = ("lt", "le", "eq", "ne", "ge", "gt", "add", "sub", "mul", "floordiv", "mod", "neg", "abs", "not_", "truth", "contains")
+
+_BIN = {ast.Add: _op.add, ast.Sub: _op.sub, ast.Mult: _op.mul, ast.FloorDiv: _op.floordiv, ast.Mod: _op.mod, ast.Pow: _op.pow, ast.Div: _op.truediv}
+_CMP = {ast.Eq: _op.eq, ast.NotEq: _op.ne, ast.Lt: _op.lt, ast.LtE: _op.le, ast.Gt: _op.gt, ast.GtE: _op.ge, ast.Is: _op.is_, ast.IsNot: _op.is_not,
+        ast.In: lambda a, b: a in b, ast.NotIn: lambda a, b: a not in b}
+_PLAIN = (int, str, bool, float, type(None), list, tuple)
+_PURE_BUILTINS = {"abs": abs, "divmod": divmod, "str": str, "int": int, "len": len, "bool": bool, "min": min, "max": max, "repr": repr, "round": round, "sum": sum}
+_STR_METHODS = ("join", "rstrip", "lstrip", "strip", "zfill", "format", "upper", "lower", "replace", "startswith", "endswith", "rjust", "ljust")
+
+
+class Evaluator:
+    """A small evaluator of function bodies over plain values (int, str, bool, None, list, tuple) and `Obj` arguments: assignments,
+    if / for / while, return, conditional and boolean expressions, arithmetic, comparisons, string building (+, %, f-strings, join,
+    format, strip ...), isinstance on an Obj, list.append, and calls of functions that `lookup` finds (evaluated the same way).
+    Nothing of the analysed package is run: the evaluator walks the `ast`.  Whatever it does not model ends the evaluation (_Unk)."""
+
+    def __init__(self, lookup, builtin_classes: dict[str, type], budget: int = 4000, module_value=None):
+        self.lookup = lookup  # name -> FunctionDef | None
+        self.classes = builtin_classes
+        self.budget = budget
+        self.module_value = module_value  # name -> the one expression bound to it at module level | None
+
+    def apply(self, f, args: list, kwargs: dict, depth: int):
+        """the value a callable value gives for the arguments: a function of the package (evaluated), a functools.partial of one, a
+        function of the standard `operator` module on plain values"""
+        if isinstance(f, Fn):
+            return self.call(f.node, args, kwargs, depth + 1)
+        if isinstance(f, Partial):
+            if set(f.kwargs) & set(kwargs):
+                kw = dict(f.kwargs)
+                kw.update(kwargs)
+            else:
+                kw = {**f.kwargs, **kwargs}
+            return self.apply(f.callee, list(f.args) + list(args), kw, depth)
+        if any(f is getattr(_op, n) for n in _OPERATOR_FUNCTIONS) and not kwargs and all(isinstance(x, _PLAIN) for x in args):
+            try:
+                return f(*args)
+            except Exception:
+                raise _Unk("operator") from None
+        raise _Unk("not a callable value")
+
+    class _Return(Exception):
+        def __init__(self, v):
+            self.v = v
+
+    class _Break(Exception):
+        pass
+
+    class _Continue(Exception):
+        pass
+
+    def call(self, fn: ast.AST, args: list, kwargs: dict | None = None, depth: int = 0):
+        if depth > 4 or any(isinstance(n, (ast.Yield, ast.YieldFrom, ast.Await, ast.Global, ast.Nonlocal)) for n in own_nodes(fn)):
+            raise _Unk("call")
+        a = fn.args  # type: ignore[attr-defined]
+        if a.vararg or a.kwarg or getattr(fn, "decorator_list", None):
+            raise _Unk("signature")
+        params = list(a.posonlyargs) + list(a.args)
+        env: dict = {}
+        if len(args) > len(params):
+            raise _Unk("arity")
+        for p, v in zip(params, args):
+            env[p.arg] = v
+        for k, v in (kwargs or {}).items():
+            if k in env or k not in [p.arg for p in params + list(a.kwonlyargs)]:
+                raise _Unk("keyword")
+            env[k] = v
+        defaults = dict(zip([p.arg for p in params[len(params) - len(a.defaults):]], a.defaults))
+        defaults.update({p.arg: d for p, d in zip(a.kwonlyargs, a.kw_defaults) if d is not None})
+        for p in params + list(a.kwonlyargs):
+            if p.arg not in env:
+                if p.arg not in defaults:
+                    raise _Unk("missing argument")
+                env[p.arg] = self.expr(defaults[p.arg], {}, depth)
+        if isinstance(fn, ast.Lambda):
+            return self.expr(fn.body, env, depth)
+        try:
+            self.block(fn.body, env, depth)  # type: ignore[attr-defined]
+        except Evaluator._Return as r:
+            return r.v
+        return None
+
+    def truth(self, v) -> bool:
+        if isinstance(v, Obj):
+            if v.falsy is None:
+                raise _Unk("truth value")
+            return not v.falsy
+        if isinstance(v, _PLAIN):
+            return bool(v)
+        raise _Unk("truth value")
+
+    def block(self, stmts: list, env: dict, depth: int) -> None:
+        for st in stmts:
+            self.budget -= 1
+            if self.budget < 0:
+                raise _Unk("budget")
+            if isinstance(st, ast.Pass) or (isinstance(st, ast.Expr) and isinstance(st.value, ast.Constant)):
+                continue
+            if isinstance(st, ast.Return):
+                raise Evaluator._Return(None if st.value is None else self.expr(st.value, env, depth))
+            if isinstance(st, ast.If):
+                self.block(st.body if self.truth(self.expr(st.test, env, depth)) else st.orelse, env, depth)
+            elif isinstance(st, ast.Assign):
+                v = self.expr(st.value, env, depth)
+                for t in st.targets:
+                    self.store(t, v, env)
+            elif isinstance(st, ast.AnnAssign):
+                if st.value is not None:
+                    self.store(st.target, self.expr(st.value, env, depth), env)
+            elif isinstance(st, ast.AugAssign) and isinstance(st.target, ast.Name) and type(st.op) in _BIN:
+                cur = self.expr(ast.Name(id=st.target.id, ctx=ast.Load()), env, depth)
+                env[st.target.id] = self.binop(st.op, cur, self.expr(st.value, env, depth))
+            elif isinstance(st, ast.Expr):
+                self.expr(st.value, env, depth)
+            elif isinstance(st, ast.For) and not st.orelse:
+                seq = self.expr(st.iter, env, depth)
+                if not isinstance(seq, (list, tuple, str)):
+                    raise _Unk("iteration")
+                for x in list(seq):
+                    self.store(st.target, x, env)
+                    try:
+                        self.block(st.body, env, depth)
+                    except Evaluator._Break:
+                        break
+                    except Evaluator._Continue:
+                        continue
+            elif isinstance(st, ast.While) and not st.orelse:
+                while self.truth(self.expr(st.test, env, depth)):
+                    try:
+                        self.block(st.body, env, depth)
+                    except Evaluator._Break:
+                        break
+                    except Evaluator._Continue:
+                        continue
+            elif isinstance(st, ast.Break):
+                raise Evaluator._Break()
+            elif isinstance(st, ast.Continue):
+                raise Evaluator._Continue()
+            else:
+                raise _Unk(type(st).__name__)  # raise, try, with, assert, nested def ...
+
+    def store(self, t: ast.AST, v, env: dict) -> None:
+        if isinstance(t, ast.Name):
+            env[t.id] = v
+        elif isinstance(t, (ast.Tuple, ast.List)) and isinstance(v, (tuple, list)) and len(v) == len(t.elts) and not any(isinstance(x, ast.Starred) for x in t.elts):
+            for x, y in zip(t.elts, v):
+                self.store(x, y, env)
+        else:
+            raise _Unk("store")
+
+    def binop(self, op, a, b):
+        if not (isinstance(a, _PLAIN) and isinstance(b, _PLAIN)) or a is None or b is None:
+            raise _Unk("operand")
+        if isinstance(op, ast.Pow) and not (isinstance(b, int) and 0 <= b <= 64):
+            raise _Unk("pow")
+        if isinstance(op, ast.Mult) and ((isinstance(a, (str, list, tuple)) and isinstance(b, int) and b > 1000) or (isinstance(b, (str, list, tuple)) and isinstance(a, int) and a > 1000)):
+            raise _Unk("repeat")
+        try:
+            return _BIN[type(op)](a, b)
+        except Exception:
+            raise _Unk("operation") from None
+
+    def expr(self, e: ast.AST, env: dict, depth: int):
+        self.budget -= 1
+        if self.budget < 0:
+            raise _Unk("budget")
+        if isinstance(e, ast.Constant):
+            if isinstance(e.value, _PLAIN):
+                return e.value
+            raise _Unk("constant")
+        if isinstance(e, ast.Name):
+            if e.id in env:
+                return env[e.id]
+            f = self.lookup(e.id)
+            if f is not None:
+                return Fn(f)
+            bound = self.module_value(e.id) if self.module_value is not None and depth <= 4 else None
+            if bound is not None:
+                return self.expr(bound, {}, depth + 1)
+            raise _Unk("name " + e.id)
+        if isinstance(e, ast.Lambda):
+            if any(isinstance(x, ast.Name) and x.id in env for x in ast.walk(e.body)):
+                raise _Unk("closure")
+            return Fn(e)
+        if isinstance(e, ast.Attribute):
+            if isinstance(e.value, ast.Name) and e.value.id == "operator" and "operator" not in env and e.attr in _OPERATOR_FUNCTIONS:
+                return getattr(_op, e.attr)
+            v = self.expr(e.value, env, depth)
+            if isinstance(v, Obj):
+                return v.attr(e.attr)
+            raise _Unk("attribute")
+        if isinstance(e, (ast.List, ast.Tuple)):
+            if any(isinstance(x, ast.Starred) for x in e.elts):
+                raise _Unk("starred")
+            vals = [self.expr(x, env, depth) for x in e.elts]
+            return vals if isinstance(e, ast.List) else tuple(vals)
+        if isinstance(e, ast.IfExp):
+            return self.expr(e.body if self.truth(self.expr(e.test, env, depth)) else e.orelse, env, depth)
+        if isinstance(e, ast.BoolOp):
+            v = None
+            for x in e.values:
+                v = self.expr(x, env, depth)
+                if self.truth(v) != isinstance(e.op, ast.And):
+                    return v
+            return v
+        if isinstance(e, ast.UnaryOp):
+            v = self.expr(e.operand, env, depth)
+            if isinstance(e.op, ast.Not):
+                return not self.truth(v)
+            if isinstance(v, (int, float)) and isinstance(e.op, (ast.USub, ast.UAdd)):
+                return -v if isinstance(e.op, ast.USub) else +v
+            raise _Unk("unary")
+        if isinstance(e, ast.BinOp) and type(e.op) in _BIN:
+            return self.binop(e.op, self.expr(e.left, env, depth), self.expr(e.right, env, depth))
+        if isinstance(e, ast.Compare):
+            left = self.expr(e.left, env, depth)
+            for op, c in zip(e.ops, e.comparators):
+                right = self.expr(c, env, depth)
+                if isinstance(left, Obj) or isinstance(right, Obj):
+                    if isinstance(op, (ast.Is, ast.IsNot)) and (left is None or right is None):
+                        r = isinstance(op, ast.IsNot)
+                    else:
+                        raise _Unk("comparison of an object")
+                else:
+                    if not (isinstance(left, _PLAIN) and isinstance(right, _PLAIN)):
+                        raise _Unk("comparison")
+                    try:
+                        r = _CMP[type(op)](left, right)
+                    except Exception:
+                        raise _Unk("comparison") from None
+                if not r:
+                    return False
+                left = right
+            return True
+        if isinstance(e, ast.JoinedStr):
+            out = []
+            for part in e.values:
+                if isinstance(part, ast.Constant):
+                    out.append(str(part.value))
+                    continue
+                if not isinstance(part, ast.FormattedValue):
+                    raise _Unk("f-string")
+                v = self.expr(part.value, env, depth)
+                if not isinstance(v, (int, str, bool, float)) and v is not None:
+                    raise _Unk("f-string value")
+                if part.conversion == 115:
+                    v = str(v)
+                elif part.conversion == 114:
+                    v = repr(v)
+                elif part.conversion != -1:
+                    raise _Unk("conversion")
+                spec = self.expr(part.format_spec, env, depth) if part.format_spec is not None else ""
+                try:
+                    out.append(format(v, spec))
+                except Exception:
+                    raise _Unk("format") from None
+            return "".join(out)
+        if isinstance(e, ast.Subscript) and isinstance(e.ctx, ast.Load) and not isinstance(e.slice, ast.Slice):
+            v, i = self.expr(e.value, env, depth), self.expr(e.slice, env, depth)
+            if isinstance(v, (list, tuple, str)) and isinstance(i, int):
+                try:
+                    return v[i]
+                except Exception:
+                    raise _Unk("index") from None
+            raise _Unk("subscript")
+        if isinstance(e, ast.Call):
+            if any(isinstance(x, ast.Starred) for x in e.args) or any(k.arg is None for k in e.keywords):
+                raise _Unk("starred call")
+            if isinstance(e.func, ast.Name) and e.func.id == "isinstance" and len(e.args) == 2 and not e.keywords and e.func.id not in env:
+                v = self.expr(e.args[0], env, depth)
+                names = [norm(t).rsplit(".", 1)[-1] for t in (e.args[1].elts if isinstance(e.args[1], ast.Tuple) else [e.args[1]])]
+                if isinstance(v, Obj):
+                    return v.type_name in names or any(b in names for b in v.bases)
+                if isinstance(v, _PLAIN) and all(n in self.classes for n in names):
+                    return isinstance(v, tuple(self.classes[n] for n in names))
+                raise _Unk("isinstance")
+            args = [self.expr(x, env, depth) for x in e.args]
+            kwargs = {k.arg: self.expr(k.value, env, depth) for k in e.keywords}
+            if norm(e.func) in ("partial", "functools.partial") and norm(e.func).split(".")[0] not in env and args:
+                if not isinstance(args[0], (Fn, Partial)) and not any(args[0] is getattr(_op, n) for n in _OPERATOR_FUNCTIONS):
+                    raise _Unk("partial of an unknown callable")
+                return Partial(args[0], args[1:], kwargs)
+            if isinstance(e.func, ast.Name) and e.func.id in env:
+                return self.apply(env[e.func.id], args, kwargs, depth)
+            if isinstance(e.func, ast.Name) and e.func.id not in env:
+                f = self.lookup(e.func.id)
+                if f is not None:
+                    return self.call(f, args, kwargs, depth + 1)
+                bound = self.module_value(e.func.id) if self.module_value is not None and e.func.id not in _PURE_BUILTINS else None
+                if bound is not None:
+                    return self.apply(self.expr(bound, {}, depth + 1), args, kwargs, depth)
+                if e.func.id in _PURE_BUILTINS and not kwargs and all(isinstance(x, _PLAIN) for x in args):
+                    try:
+                        return _PURE_BUILTINS[e.func.id](*args)
+                    except Exception:
+                        raise _Unk("builtin") from None
+                if e.func.id == "cast" and len(args) == 2:
+                    return args[1]
+                raise _Unk("call of " + e.func.id)
+            if isinstance(e.func, ast.Attribute) and isinstance(e.func.value, ast.Name) and e.func.value.id == "operator" and "operator" not in env:
+                return self.apply(self.expr(e.func, env, depth), args, kwargs, depth)
+            if isinstance(e.func, ast.Attribute):
+                recv = self.expr(e.func.value, env, depth)
+                if isinstance(recv, list) and e.func.attr in ("append", "extend", "insert") and not kwargs:
+                    getattr(recv, e.func.attr)(*args)
+                    return None
+                if isinstance(recv, str) and e.func.attr in _STR_METHODS and all(isinstance(x, _PLAIN) for x in list(args) + list(kwargs.values())):
+                    try:
+                        return getattr(recv, e.func.attr)(*args, **kwargs)
+                    except Exception:
+                        raise _Unk("str method") from None
+            raise _Unk("call")
+        raise _Unk(type(e).__name__)
